@@ -659,7 +659,7 @@ def single_assign(f):
     return f["_single"]
 
 
-def inline_locals(f, e, depth=3):
+def inline_locals(f, e, depth=3, all_types=False):
     """copy of expression e in which every read of a single-assignment scalar local of f is replaced by that local's
     initialiser (transitively, up to `depth`): lets shape rules see through `const T x = ...;` without caring about it.
     The copy is for matching and printing only (node ids repeat)."""
@@ -670,7 +670,7 @@ def inline_locals(f, e, depth=3):
             return n
         if n.get("k") == "DeclRefExpr" and n.get("var") in sa and d > 0 and not n.get("parm"):
             t = ty(f, n) or {}
-            if t.get("k") in ("int", "bool", "enum", "ptr"):
+            if all_types or t.get("k") in ("int", "bool", "enum", "ptr"):
                 return rec(sa[n["var"]], d - 1)
         if "c" in n and n["c"]:
             m = dict(n)
@@ -817,3 +817,129 @@ def lifted_sites(db, f, pred, max_nodes=160):
                 if pm is not None and gh.reaches_exit_avoiding((gh.entry, -1), [pm], normal_only=True) is None:
                     out.append((c, m, h))
     return out
+
+
+# ---------------------------------------------------------------------------------------------- expression helpers
+_HDR_NAMES = {}
+
+
+def _named_in_headers(db, name):
+    import re as _re
+    if not name or not _re.match(r"^[A-Za-z_]\w*$", name):
+        return True
+    key = db.repo
+    if key not in _HDR_NAMES:
+        txt = []
+        for root, _, files in os.walk(os.path.join(db.repo, "include")):
+            for fn_ in files:
+                try:
+                    with open(os.path.join(root, fn_), errors="replace") as fh:
+                        txt.append(fh.read())
+                except OSError:
+                    pass
+        _HDR_NAMES[key] = set(_re.findall(r"[A-Za-z_]\w*", "\n".join(txt)))
+    return name in _HDR_NAMES[key]
+
+
+def expression_helper(db, callee):
+    """the return expression of `callee` when it is a file-local expression helper: a free function defined in a source
+    file, named in no public header, whose body is exactly `return EXPR;` with no assignment inside - else None"""
+    h = db.fn(callee) if callee else None
+    if h is None or h.get("rec") or not h.get("body") or not (h.get("file") or "").startswith("src/"):
+        return None
+    st = [x for x in h["body"].get("c", []) if x is not None]
+    if len(st) != 1 or st[0]["k"] != "ReturnStmt" or not st[0].get("c"):
+        return None
+    if _named_in_headers(db, h.get("name")):
+        return None
+    n = 0
+    for x in walk(st[0]):
+        n += 1
+        if x["k"] in ("CompoundAssignOperator", "CXXNewExpr", "CXXDeleteExpr", "LambdaExpr", "CXXThrowExpr") or \
+                (x["k"] == "BinaryOperator" and x.get("op") == "=") or (x["k"] == "UnaryOperator" and x.get("op") in ("++", "--")):
+            return None
+    if n > 80:
+        return None
+    return h, st[0]["c"][0]
+
+
+_NEXT_X = [300000000]
+
+
+def expanded(db, f, depth=2):
+    """A copy of function record f in which every call of a file-local expression helper is replaced by the helper's
+    return expression (parameters -> argument trees): shape rules that opt in read `check = helper(a, b)` as the
+    expression it was extracted from.  Node ids of untouched nodes are kept (CFG positions still resolve; a grafted node
+    resolves to the position of its nearest original ancestor)."""
+    if "_expanded" in f:
+        return f["_expanded"]
+    touched = [False]
+
+    def remap_type(ht, ft, t, tmap):
+        if t is None or not isinstance(t, int) or t < 0 or ht is ft:
+            return t
+        if t not in tmap:
+            ft.append(ht[t])
+            tmap[t] = len(ft) - 1
+        return tmap[t]
+
+    def graft(h, e, sub, tmap, d):
+        if not isinstance(e, dict):
+            return e
+        if e["k"] == "DeclRefExpr" and e.get("var") in sub:
+            return sub[e["var"]]
+        m = dict(e)
+        _NEXT_X[0] += 1
+        m["id"] = _NEXT_X[0]
+        m["grafted"] = True
+        if "t" in m:
+            m["t"] = remap_type(h.get("_types"), f.get("_types"), m["t"], tmap)
+        if "c" in m:
+            m["c"] = [graft(h, c, sub, tmap, d) for c in m["c"]]
+        return fix_member(expand_call(m, d, h))
+
+    def fix_member(m):
+        # (*p).m  ->  p->m   (a reference parameter bound to `*p`)
+        if m["k"] == "MemberExpr" and not m.get("arrow") and m.get("c"):
+            b = m["c"][0]
+            while isinstance(b, dict) and b["k"] in ("ParenExpr", "ImplicitCastExpr") and b.get("c"):
+                b = b["c"][0]
+            if isinstance(b, dict) and b["k"] == "UnaryOperator" and b.get("op") == "*" and b.get("c"):
+                m = dict(m)
+                m["arrow"] = True
+                m["c"] = [b["c"][0]] + list(m["c"][1:])
+        return m
+
+    def expand_call(n, d, ctx):
+        if n["k"] != "CallExpr" or not n.get("callee") or n.get("ext") or d <= 0:
+            return n
+        eh = expression_helper(db, n["callee"])
+        if eh is None:
+            return n
+        h, ret = eh
+        args = n["c"][1:]
+        if len(args) != len(h.get("params", ())):
+            return n
+        sub = dict((p["var"], a) for p, a in zip(h["params"], args))
+        touched[0] = True
+        g = graft(h, ret, sub, {}, d - 1)
+        g = dict(g)
+        g["inlined_from"] = h["id"]
+        g["l"] = n.get("l")
+        return g
+
+    def cp(n, d):
+        if not isinstance(n, dict):
+            return n
+        m = dict(n)
+        if "c" in m:
+            m["c"] = [cp(c, d) for c in m["c"]]
+        return fix_member(expand_call(m, d, f)) if m["k"] in ("CallExpr", "MemberExpr") else m
+    f2 = dict((k, v) for k, v in f.items() if k not in ("_idx", "_parent", "_single", "_expanded"))
+    f2["body"] = cp(f["body"], depth) if f.get("body") else f.get("body")
+    if not touched[0]:
+        f["_expanded"] = f
+        return f
+    f2["_expanded"] = f2
+    f["_expanded"] = f2
+    return f2
